@@ -155,6 +155,8 @@ OnDecode(ev) ==
 OnClose(ev) ==
   /\ viol' = viol \cup If(ev.a # 0, V("C15", "MemoryNotReturnedOnClose", ev))
                   \cup If(ev.err # "", V("C15", "CloseFailed", ev))
+                  \* ev.n: emitted payloads whose bytes were no longer the emitted ones at the end of the stream
+                  \cup If(ev.n > 0, V("C12", "EmittedPayloadChangedLater", ev))
   /\ UNCHANGED <<hdr, nextBid, sidType, sidSchema, live, retired, opened, lastIn, lastEnc, ladder>>
 
 \* C16: what a stream decoded while other streams ran concurrently (ev.out) vs. what it decoded alone (ev.in)
